@@ -8,6 +8,7 @@ import (
 	"strings"
 
 	"npverif/internal/core"
+	"npverif/internal/facts"
 )
 
 // LoopCarriedPartialWrites: a struct-typed local that is updated field by field inside a loop must be a fresh variable
@@ -435,30 +436,44 @@ func LoopCarriedDefaults(p *core.Program, r *core.Report, rule string) {
 				// a variable that the body tests against its default and leaves the loop (or the function) when the test
 				// fails is back at the default whenever an iteration starts: nothing is carried (the error idiom
 				// `err = f(x) ...; if err != nil { return err }`)
+				// decided on paths: every way into the next iteration (the end of the body, a continue) knows v == nil
 				resetByExit := false
-				ast.Inspect(body, func(m ast.Node) bool {
-					ifs, ok := m.(*ast.IfStmt)
-					if !ok || len(ifs.Body.List) == 0 {
-						return true
+				{
+					rw := facts.NewWalker(info)
+					okAll, seen := true, false
+					atStart := ""
+					var first ast.Stmt
+					if len(body.List) > 0 {
+						first = body.List[0]
 					}
-					be, ok := ast.Unparen(ifs.Cond).(*ast.BinaryExpr)
-					if !ok || be.Op != token.NEQ {
-						return true
-					}
-					id, ok := ast.Unparen(be.X).(*ast.Ident)
-					if !ok || info.ObjectOf(id) != types.Object(v) || !core.IsNil(info, be.Y) {
-						return true
-					}
-					switch last := ifs.Body.List[len(ifs.Body.List)-1].(type) {
-					case *ast.ReturnStmt:
-						resetByExit = true
-					case *ast.BranchStmt:
-						if last.Tok == token.BREAK {
-							resetByExit = true
+					rw.OnStmt = func(st ast.Stmt, f facts.Formula) {
+						if st == first {
+							atStart = rw.PathOfVar(v) // the value the iteration starts with (nil, by induction over the back edges)
 						}
 					}
-					return true
-				})
+					judge := func(f facts.Formula) {
+						if !facts.Satisfiable(f) {
+							return
+						}
+						seen = true
+						cur := rw.PathOfVar(v)
+						if cur != atStart && !facts.Entails(f, facts.Atom("nil:"+cur)) {
+							okAll = false
+						}
+					}
+					rw.OnLoopBodyEnd = func(l ast.Stmt, states uint64, f facts.Formula) {
+						if l == loop {
+							judge(f)
+						}
+					}
+					rw.OnBranch = func(b *ast.BranchStmt, states uint64, f facts.Formula) {
+						if b.Tok == token.CONTINUE && len(rw.Loops) > 0 && rw.Loops[len(rw.Loops)-1] == loop {
+							judge(f)
+						}
+					}
+					rw.WalkBody(fd.Decl.Body, nil)
+					resetByExit = seen && okAll
+				}
 				if resetByExit {
 					continue
 				}
